@@ -10,6 +10,8 @@ for sid in sys.argv[1:]:
     patch = open(os.path.join(d, "patch.diff")).read()
     files = sorted(set(re.findall(r"^\+\+\+ b/(\S+)", patch, flags=re.M)))
     title = next((l.lstrip("# ").strip() for l in notes.splitlines() if l.startswith("#")), sid)
+    mc = re.search(r"^#+[^\n]*change[^\n]*\n(.*?)(?=^#+ |\Z)", notes, flags=re.S | re.M | re.I)
+    change = re.sub(r"\s+", " ", mc.group(1)).strip()[:500] if mc else ""
     m = re.search(r"^#+[^\n]*(needs|manifest)[^\n]*\n(.*?)(?=^#+ |\Z)", notes, flags=re.S | re.M | re.I)
     needs = re.sub(r"\s+", " ", m.group(2)).strip()[:1500] if m else ""
     vlog = open(os.path.join(d, "verify.log")).read() if os.path.exists(os.path.join(d, "verify.log")) else ""
@@ -30,9 +32,9 @@ for sid in sys.argv[1:]:
                 det[p]["replay_kind"] = r.get("kind"); det[p]["monitor"] = (r.get("monitor") or "")[:300]; det[p]["profile"] = r.get("profile")
                 if r.get("broken"): det[p]["broken"] = r["broken"][:3]
             except Exception: pass
-    meta = {"id": sid, "property": prop, "property_title": props[prop]["title"], "summary": title, "files_changed": files,
+    meta = {"id": sid, "property": prop, "property_title": props[prop]["title"], "summary": title, "change": change, "files_changed": files,
             "needs_to_manifest": needs,
-            "origin": "written by a fresh sub-agent that was given only the text of the property, the one-line summaries of the changes already taken for it, an in-process test written for a different property as scaffolding, and a scratch git worktree of /repo under /tmp (nothing from /verif's machinery)",
+            "origin": "written by a fresh sub-agent that was given only the text of the property and a scratch git worktree of /repo under /tmp (nothing from /verif)" if sid.endswith("-1") else "written by a fresh sub-agent that was given only the text of the property, the one-line summaries of the changes already taken for it, an in-process test written for a different property as scaffolding, and a scratch git worktree of /repo under /tmp (nothing from /verif's machinery)",
             "what_i_ran": {"confirm": f"sh scripts/verify_seed.sh /verif/seeded/{sid} (scratch worktree of /repo HEAD, removed afterwards): demonstration without / with the change, go build ./app/... ./x/... ./cmd/..., the four types test packages",
                            "base_commit": base, "demo_without_change": after("== demo WITHOUT the change"), "demo_with_change": after("== demo WITH the change"),
                            "build": after("== build"), "detect": f"sh scripts/detect_seed.sh {sid} {prop}"},
